@@ -65,7 +65,7 @@ package ctxio
 //@   ghostset at call(SetWriteDeadline)#3 : gDlFail = (res0 != nil)
 //@   ghostset at call(Err)#1 : gCtxErr = res0
 //@   assert [buffered C16 C17] at makechan#1 : size == 1
-//@   join at recv#1 : go#1
+//@   join at recv#1 : go#1 ; recv.n == gSentN && recv.err == gSentErr
 //@   join at selrecv#2 : go#1 ; recv.n == gSentN && recv.err == gSentErr
 //@   assert [arm C17] at go#1 : dlWctx[c.conn]
 //@   assert [unblock C17] at recv#1 : dlWpast[c.conn] && gCancelled
@@ -101,7 +101,7 @@ package ctxio
 //@   ghostset at call(SetReadDeadline)#3 : gDlFail = (res0 != nil)
 //@   ghostset at call(Err)#1 : gCtxErr = res0
 //@   assert [buffered C16 C17] at makechan#1 : size == 1
-//@   join at recv#1 : go#1
+//@   join at recv#1 : go#1 ; recv.n == gSentN && recv.err == gSentErr
 //@   join at selrecv#2 : go#1 ; recv.n == gSentN && recv.err == gSentErr
 //@   assert [arm C17] at go#1 : dlRctx[c.conn]
 //@   assert [unblock C17] at recv#1 : dlRpast[c.conn] && gCancelled
@@ -140,7 +140,7 @@ package ctxio
 //@   ghostset at call(SetReadDeadline)#3 : gDlFail = (res0 != nil)
 //@   ghostset at call(Err)#1 : gCtxErr = res0
 //@   assert [buffered C16 C17] at makechan#1 : size == 1
-//@   join at recv#1 : go#1
+//@   join at recv#1 : go#1 ; recv.val == gSentVal && recv.err == gSentErr
 //@   join at selrecv#2 : go#1 ; recv.val == gSentVal && recv.err == gSentErr
 //@   assert [arm C17] at go#1 : dlRctx[c.conn]
 //@   assert [unblock C17] at recv#1 : dlRpast[c.conn] && gCancelled
